@@ -36,6 +36,10 @@ POSTCONDITION Post
 """
 
 
+def _wsize(w):
+    return len(json.dumps(w, sort_keys=True))
+
+
 def fn_names(ctx):
     pb = ctx.build("asmx")
     p = ctx.run([pb, "fns"])
@@ -252,7 +256,7 @@ def judge(ctx, cases, shrink=True):
         groups.setdefault((r["kind"], r["locus"]), []).append(r)
     deep = []
     for g in groups.values():
-        g.sort(key=lambda r: verif.wsize(r["witness"]))
+        g.sort(key=lambda r: _wsize(r["witness"]))
         deep += g[:8]
     subs, owner, seen = [], [], {}
     for ri, r in enumerate(deep):
@@ -279,13 +283,13 @@ def judge(ctx, cases, shrink=True):
             if o == ri:
                 cands += [s for s in by_case.get(si, []) if s["kind"] == r["kind"]]
         if cands:
-            best_of[id(r)] = min(cands, key=lambda s: (s["depth"], verif.wsize(s["witness"])))
+            best_of[id(r)] = min(cands, key=lambda s: (s["depth"], _wsize(s["witness"])))
     out = [r for r in recs if not (r["depth"] > 1 and (r["kind"], r["locus"]) in groups)]
     for key, g in groups.items():
         reps = g[:8]
         moved = [best_of[id(r)] for r in reps if id(r) in best_of]
         if len(moved) == len(reps):
-            fallback = min(moved, key=lambda s: (s["depth"], verif.wsize(s["witness"])))
+            fallback = min(moved, key=lambda s: (s["depth"], _wsize(s["witness"])))
             out += moved + [fallback] * (len(g) - len(reps))
         else:
             out += moved + [r for r in reps if id(r) not in best_of] + g[8:]
@@ -301,7 +305,7 @@ def main(ctx):
         ctx.add(r["api"], r["kind"], r["locus"], r["witness"], case=r["case"], detail=r.get("detail"))
     if os.environ.get("VERIF_DEBUG"):
         seen = {}
-        for r in sorted(recs, key=lambda r: verif.wsize(r["witness"])):
+        for r in sorted(recs, key=lambda r: _wsize(r["witness"])):
             seen.setdefault((r["kind"], r["locus"]), []).append(r)
         for k, v in sorted(seen.items()):
             log("GROUP", k, len(v))
